@@ -27,6 +27,7 @@ type Listener struct {
 	s        *xmpp.Session
 	h        *Handler
 	c        chan *Conn
+	closed   chan struct{}
 	expected map[string]expected
 	eLock    sync.Mutex
 }
@@ -35,11 +36,12 @@ type Listener struct {
 // If the listener is closed by either end pending Accept calls unblock and
 // return an error.
 func (l *Listener) Accept() (net.Conn, error) {
-	conn, ok := <-l.c
-	if !ok {
+	select {
+	case conn := <-l.c:
+		return conn, nil
+	case <-l.closed:
 		return nil, errors.New("ibb: accept on closed listener")
 	}
-	return conn, nil
 }
 
 // Expect is like Accept except that it accepts a specific session that has been
@@ -90,7 +92,13 @@ func (l *Listener) Close() error {
 	l.h.lM.Lock()
 	defer l.h.lM.Unlock()
 	delete(l.h.l, l.s.LocalAddr().String())
-	close(l.c)
+	// l.c itself stays open: the session may be about to hand over a stream
+	// that was requested before the listener went away.
+	select {
+	case <-l.closed:
+	default:
+		close(l.closed)
+	}
 	return nil
 }
 
